@@ -278,7 +278,10 @@ func (d *jsonDecoder) unmarshalList(protolist protoreflect.List, fd protoreflect
 				return err
 			}
 
-			protolist.Append(value)
+			// An invalid value without an error means that the element should be skipped (unknown enum name with DiscardUnknown).
+			if value.IsValid() {
+				protolist.Append(value)
+			}
 		}
 	}
 
@@ -324,7 +327,10 @@ func (d *jsonDecoder) unmarshalMap(protomap protoreflect.Map, fd protoreflect.Fi
 			mappedValue = value
 		}
 
-		protomap.Set(protoreflect.MapKey(keyValue), mappedValue)
+		// An invalid value without an error means that the entry should be skipped (unknown enum name with DiscardUnknown).
+		if mappedValue.IsValid() {
+			protomap.Set(protoreflect.MapKey(keyValue), mappedValue)
+		}
 	}
 
 	return nil
@@ -342,7 +348,11 @@ func (d *jsonDecoder) unmarshalSingular(msg protoreflect.Message, fd protoreflec
 		return err
 	}
 
-	msg.Set(fd, value)
+	// An invalid value without an error means that the field should be skipped (unknown enum name with DiscardUnknown).
+	if value.IsValid() {
+		msg.Set(fd, value)
+	}
+
 	return nil
 }
 
